@@ -459,4 +459,142 @@ Proof.
   - rewrite E; auto.
 Qed.
 
+
+(** visible side effects (host ticks) are operations: at most one more tick per thread *)
+Lemma step_log st t b : log (step F st t b) = log st \/ exists x, log (step F st t b) = (t, x) :: log st.
+Proof. unfold step, exec, start_phase; destr; simpl; eauto. Qed.
+
+Lemma steps_log st sched : exists ext, log (steps F st sched) = ext ++ log st.
+Proof.
+  revert st; induction sched as [|[t b] sched IH]; intros st; simpl; [exists []; auto|].
+  destruct (IH (step F st t b)) as [ext E]. rewrite E.
+  destruct (step_log st t b) as [->|[x ->]]; [eauto|]. exists (ext ++ [(t, x)]). rewrite <- app_assoc; auto.
+Qed.
+
+Lemma evs_app u a b : evs u (a ++ b) = evs u a + evs u b.
+Proof. unfold evs. rewrite filter_app, app_length; auto. Qed.
+Lemma tks_app u a b : tks u (a ++ b) = tks u a + tks u b.
+Proof. unfold tks. rewrite filter_app, app_length; auto. Qed.
+Lemma tks_le_evs u l : tks u l <= evs u l.
+Proof.
+  unfold tks, evs. induction l as [|e l IH]; simpl; auto.
+  destruct (fst e =? u); simpl; [destruct (is_tick e); simpl; lia|auto].
+Qed.
+
+Lemma gate_ticks h sched u :
+  no_pending (run F fresh h) = true ->
+  tks u (log (steps F (do_action F (run F fresh h) AStop) sched)) <= tks u (log (run F fresh h)) + 1.
+Proof.
+  intros Hp. pose proof (gate_ops h sched u Hp) as H.
+  destruct (steps_log (do_action F (run F fresh h) AStop) sched) as [ext E].
+  rewrite E in *. simpl in *. rewrite evs_app in H. rewrite tks_app.
+  pose proof (tks_le_evs u ext). lia.
+Qed.
+
+
+(** ---------------------------------------------------------------- C10: uses of named functions *)
+
+Definition live_act (S : list nat) (st : state) (a : act) : Prop :=
+  frame_id st (afr a) = iid st /\ In (afn a) S.
+
+Definition live (S : list nat) (st : state) (th : thread) : Prop :=
+  Forall (live_act S st) (stack th) /\ Forall (fun ph => In (phase_fn ph) S) (phases th).
+
+Lemma memn_In x l : memn x l = true -> In x l.
+Proof.
+  induction l as [|y l IH]; simpl; [discriminate|].
+  destruct (Nat.eqb_spec y x); simpl; auto.
+Qed.
+
+Lemma basic_fetch S f pc i :
+  basic_set F S = true -> In f S -> nth_error (body F f) pc = Some i -> basic_instr S i = true.
+Proof.
+  unfold basic_set. rewrite forallb_forall. intros H Hin Hn.
+  specialize (H _ Hin). rewrite forallb_forall in H. apply H. eapply nth_error_In; eauto.
+Qed.
+
+Lemma live_act_ext S st st' a :
+  iid st' = iid st -> rootid st' = rootid st -> live_act S st a -> live_act S st' a.
+Proof. intros E1 E2 [A B]; split; auto. destruct (afr a); simpl in *; congruence. Qed.
+
+Lemma follow S st t b th :
+  basic_set F S = true -> rootid st = iid st -> nth_error (threads st) t = Some th -> live S st th ->
+  exists th', nth_error (threads (step F st t b)) t = Some th'
+     /\ erase th' = fst (gstep F (erase th) b)
+     /\ live S (step F st t b) th'
+     /\ log (step F st t b) = map (fun x => (t, x)) (snd (gstep F (erase th) b)) ++ log st.
+Proof.
+  intros HS Hroot Hth [Hst Hph]. unfold step. rewrite Hth.
+  destruct th as [stk0 ar ph]; simpl in *.
+  assert (Hset : forall st' s ar' ph' ev, iid st' = iid st -> rootid st' = rootid st -> threads st' = threads st ->
+            log st' = map (fun x => (t, x)) ev ++ log st ->
+            Forall (live_act S st) s -> Forall (fun ph => In (phase_fn ph) S) ph' ->
+            exists th', nth_error (threads (set_thread st' t (mkThread s ar' ph'))) t = Some th'
+              /\ erase th' = (map (fun a => (afn a, apc a)) s, ar', ph')
+              /\ live S (set_thread st' t (mkThread s ar' ph')) th'
+              /\ log (set_thread st' t (mkThread s ar' ph')) = map (fun x => (t, x)) ev ++ log st).
+  { intros st' s ar' ph' ev E1 E2 E3 E4 Hs Hp. exists (mkThread s ar' ph'). unfold set_thread; simpl. repeat split; auto.
+    all: try (rewrite E3; apply nth_error_upd_same; eapply nth_error_lt; eauto; fail).
+    all: try (simpl; eapply Forall_impl; [|exact Hs]; intros a0; apply live_act_ext; simpl; auto). }
+  assert (Hspawn : forall st' a' g ev,
+            (exists th', nth_error (threads st') t = Some th' /\ erase th' = g /\ live S st' th' /\ log st' = ev) ->
+            exists th', nth_error (threads (spawn st' a')) t = Some th' /\ erase th' = g /\ live S (spawn st' a') th' /\ log (spawn st' a') = ev).
+  { intros st' a' g ev (th' & A & B & [C1 C2] & D). exists th'. unfold spawn; simpl. repeat split; auto.
+    all: try (rewrite nth_error_app1; auto; eapply nth_error_lt; eauto; fail).
+    all: try (eapply Forall_impl; [|exact C1]; intros a0; apply live_act_ext; simpl; auto). }
+  destruct stk0 as [|a stk].
+  { destruct ph as [|[f|f] rest].
+    - exists (mkThread [] ar []). repeat split; auto.
+    - inversion Hph; subst. unfold start_phase.
+      apply (Hset (set_rootdone st (idone st)) [mkAct FRoot f 0] false rest []); simpl; auto.
+      constructor; auto. split; simpl; auto.
+    - inversion Hph; subst. unfold start_phase.
+      apply (Hset st [mkAct (FOwn (mkFrame (iid st) (idone st))) f 0] false rest []); simpl; auto.
+      constructor; auto. split; simpl; auto. }
+  inversion Hst as [|? ? [Ha1 Ha2] Hstk]; subst.
+  unfold erase, gstep, fetch; cbn [stack armed phases map afn apc].
+  destruct (nth_error (body F (afn a)) (apc a)) as [i|] eqn:Hf.
+  2:{ apply (Hset st stk false ph []); simpl; auto. }
+  assert (Hnext : live_act S st (next a)) by (split; simpl; auto).
+  assert (Hgoto : forall pc, live_act S st (goto a pc)) by (split; simpl; auto).
+  destruct ar.
+  - pose proof (basic_fetch S _ _ _ HS Ha2 Hf) as Hb.
+    unfold exec. destruct i; simpl in Hb; try discriminate; cbv beta iota zeta.
+    + apply (Hset (add_log st (t, Some n)) (next a :: stk) false ph [Some n]); simpl; auto.
+    + apply (Hset (add_log st (t, None)) (next a :: stk) false ph [None]); simpl; auto.
+    + apply memn_In in Hb.
+      apply (Hset (add_log st (t, None)) (mkAct (FOwn (copy_frame st (afr a))) f 0 :: next a :: stk) false ph [None]); simpl; auto.
+      constructor; auto. split; simpl; auto.
+    + apply Hspawn. apply (Hset (add_log st (t, None)) (next a :: stk) false ph [None]); simpl; auto.
+    + apply (Hset (add_log st (t, None)) (goto a pc :: stk) false ph [None]); simpl; auto.
+    + destruct b; [apply (Hset (add_log st (t, None)) (goto a pc :: stk) false ph [None])
+                  |apply (Hset (add_log st (t, None)) (next a :: stk) false ph [None])]; simpl; auto.
+    + apply (Hset (add_log st (t, None)) stk false ph [None]); simpl; auto.
+  - rewrite Ha1, Nat.eqb_refl. apply (Hset st (a :: stk) true ph []); simpl; auto.
+Qed.
+
+Lemma follow_solo S bs : forall st t th,
+  basic_set F S = true -> rootid st = iid st -> nth_error (threads st) t = Some th -> live S st th ->
+  out (solo F st t bs) = grun F (erase th) bs ++ out st.
+Proof.
+  induction bs as [|b bs IH]; intros st t th HS Hroot Hth Hl; simpl; auto.
+  destruct (follow S st t b th HS Hroot Hth Hl) as (th' & A & B & C & D).
+  rewrite (IH (step F st t b) t th'); auto.
+  - rewrite B. unfold out. rewrite D, map_app, map_map. simpl. rewrite map_id, app_assoc. auto.
+  - rewrite step_rootid, step_iid; auto.
+Qed.
+
+(** every use of named functions through a later Execute, in every reachable state (any number of
+    cancelled evaluations before), performs exactly the operations G prescribes *)
+Lemma named_use S h p bs :
+  basic_set F S = true -> Forall (fun ph => In (phase_fn ph) S) p ->
+  out (solo F (do_action F (run F fresh h) (AExecute p)) (length (threads (run F fresh h))) bs)
+  = grun F ([], false, p) bs ++ out (run F fresh h).
+Proof.
+  intros HS Hp.
+  rewrite (follow_solo S bs _ _ (mkThread [] false p)); auto.
+  - simpl. rewrite nth_error_app2, Nat.sub_diag; auto.
+  - split; simpl; auto.
+Qed.
+
 End P.
